@@ -81,7 +81,17 @@ func (l *Lines) reloadRange(from int, to int) {
 	}
 }
 
+// ValidIndex checks if i is a valid index of a line.
+func (l Lines) ValidIndex(i int) bool { return i >= 0 && i < len(l.lines) }
+
 func (l *Lines) Move(fromLine int, toLine int) error {
+	if !l.ValidIndex(fromLine) {
+		return fmt.Errorf("from is not a valid line number: %d", fromLine)
+	}
+	if !l.ValidIndex(toLine) {
+		return fmt.Errorf("to is not a valid line number: %d", toLine)
+	}
+
 	from, to := l.Index(fromLine), l.Index(toLine)
 
 	fromBlock, fromBlockOK := from.Block()
